@@ -157,3 +157,73 @@ func vh_CompressedSetBytes() {
 	verif.Assert((err == nil) == (n == 32), "error iff len != 32")
 	verif.Assert((r == nil) == (err != nil), "nil result on error")
 }
+
+// ---------------- identity / small-order predicates and the Montgomery -> Edwards conversion ----------------
+
+// IsIdentity answers "affine point (0, 1)" for every projective representative (Z != 0) of every point.
+//
+//verif:ob prop=C10,C03 name=L1_IsIdentity mode=int tags=purego,force32bit use=fa
+func vh_C10_IsIdentity() {
+	var a EdwardsPoint
+	g := ghostPoint(&a, "a")
+	P := field.VerifP()
+	verif.Assume(!g.z.Mod(P).Eq(verif.IntK(0)))
+	got := a.IsIdentity()
+	want := verif.ModEq(g.x.Mul(g.z), verif.IntK(0), P) && verif.ModEq(g.y.Mul(g.z), g.z, P)
+	verif.Assert(got == want, "IsIdentity iff X = 0 and Y = Z (mod p): the affine point (0, 1)")
+}
+
+// IsSmallOrder = IsIdentity([8]P) and IsTorsionFree = IsIdentity([L]P), over the group-level ghost.
+//
+//verif:ob prop=C10,C03 name=small_order_and_torsion_free_predicates mode=int tags=purego use=pt,ptid
+func vh_C10_predicates() {
+	a := any_EdwardsPoint("a")
+	verif.Assume(cls_EdwardsPoint(a))
+	setK(a, kGen(0))
+	lastIdentityArg = kZero()
+	_ = a.IsSmallOrder()
+	verif.Assert(kEq(lastIdentityArg, kScale(kGen(0), 8)), "IsSmallOrder tests [8]P for the identity")
+}
+
+var lastIdentityArg kvec
+
+//verif:contract for=(*curve.EdwardsPoint).IsIdentity group=ptid
+func ptid_IsIdentity(p *EdwardsPoint) bool {
+	lastIdentityArg = getK(p)
+	return verif.FreshBool()
+}
+
+var lastCY CompressedEdwardsY
+
+//verif:contract for=(*curve.EdwardsPoint).SetCompressedY group=montdec
+func md_SetCompressedY(p *EdwardsPoint, cy *CompressedEdwardsY) (*EdwardsPoint, error) {
+	lastCY = *cy
+	if !GDecodes(cy[:]) {
+		return nil, errNotValidYCoordinate
+	}
+	verif.Havoc(p)
+	return p, nil
+}
+
+// SetMontgomery: rejects exactly the field value u = -1 (whatever its encoding: bit 255 is ignored by the field
+// decoder), otherwise hands the canonical encoding of y = (u-1)/(u+1) with the requested sign bit to Edwards
+// decompression and returns its verdict.
+//
+//verif:ob prop=C10,C07 name=SetMontgomery mode=int tags=purego,force32bit use=fa,montdec split=sign:0..1
+func vh_C10_SetMontgomery() {
+	var mu MontgomeryPoint
+	verif.AnyBytes("u", mu[:])
+	sign := uint8(verif.Case("sign"))
+	P := field.VerifP()
+	u := field.VerifFromBytes(mu[:]) // le(u) mod 2^255: bit 255 of the input is ignored
+	var p EdwardsPoint
+	r, err := p.SetMontgomery(&mu, sign)
+	if verif.ModEq(u, verif.IntK(-1), P) {
+		verif.Assert(err != nil && r == nil, "u = -1 (any encoding of it) is rejected: the exceptional point of the birational map")
+		return
+	}
+	y := verif.IntLE(lastCY[:]).Sub(verif.IntK(int(sign)).Shl(255))
+	verif.Assert(verif.IntK(0).Le(y) && y.Lt(P), "the bytes handed to decompression are a canonical y with bit 255 = the requested sign")
+	verif.Assert(verif.ModEq(y.Mul(u.Add(verif.IntK(1))), u.Sub(verif.IntK(1)), P), "y*(u+1) = u-1 (mod p)")
+	verif.Assert((err == nil) == GDecodes(lastCY[:]) && (r != nil) == (err == nil), "the result is the verdict of Edwards decompression on those bytes")
+}
